@@ -191,7 +191,7 @@ def correspondence(ctx, broken_obligations=()):
     cov.update(forced_schedules=len(cases), forced_sample=[cases[0] + " -> " + outs[0], cases[-1] + " -> " + outs[-1]])
     # (B) pipelined stress against the real binary
     binary = lsp.build_server()
-    n = 60 if ctx.quick else 1500
+    n = 160 if ctx.quick else 1500
     t0 = time.time()
     with ThreadPoolExecutor(max_workers=max(2, core.NCPU // 2)) as ex:
         results = list(ex.map(lambda sd: stress_one(binary, ctx.seed * 100000 + sd), range(n)))
